@@ -4,7 +4,7 @@
    theorem. *)
 From Coq Require Import List ZArith Bool.
 From Coq.Init Require Import Byte.
-From Sif Require Import Bytes Store Format Image Machine Sha2.
+From Sif Require Import Bytes Store Format Image Machine Sha2 Meta.
 Import ListNotations.
 Local Open Scope Z_scope.
 
@@ -32,12 +32,14 @@ Inductive init :=
 Inductive query :=
 | QMany (sels : list selector)      (* GetDescriptors *)
 | QOne (sels : list selector)       (* GetDescriptor *)
-| QData (id : Z).                   (* GetDescriptor(WithID id) then GetData *)
+| QData (id : Z)                    (* GetDescriptor(WithID id) then GetData *)
+| QMeta (id : Z).                   (* GetDescriptor(WithID id) then every typed accessor (Meta.v) *)
 
 Inductive qobs :=
 | QIds (l : list (Z * Z))           (* (ID, relative ID) of each descriptor returned *)
 | QErr (e : err)
-| QBytes (bs : list brun).
+| QBytes (bs : list brun)
+| QView (name : list byte) (nums : list Z) (arch fp digest : list byte).
 
 Record hcase := mkCase {
   c_id : Z;
@@ -125,6 +127,19 @@ Definition run_query (s : state) (q : query) : qobs :=
           end
       | inr e => QErr e
       end
+  | QMeta id =>
+      match get_descriptor (s_mem s) [SID id] with
+      | inl (d, _) =>
+          let v := meta_view d in QView (mv_name v) (mv_nums v) (mv_arch v) (mv_fp v) (mv_digest v)
+      | inr e => QErr e
+      end
+  end.
+
+Fixpoint zs_eqb (a b : list Z) : bool :=
+  match a, b with
+  | [], [] => true
+  | x :: a', y :: b' => (x =? y) && zs_eqb a' b'
+  | _, _ => false
   end.
 
 Definition qobs_eqb (a b : qobs) : bool :=
@@ -132,6 +147,8 @@ Definition qobs_eqb (a b : qobs) : bool :=
   | QIds x, QIds y => pairs_eqb x y
   | QErr x, QErr y => err_eqb x y
   | QBytes x, QBytes y => bytes_eqb (expand x) (expand y)
+  | QView n1 z1 a1 f1 g1, QView n2 z2 a2 f2 g2 =>
+      bytes_eqb n1 n2 && zs_eqb z1 z2 && bytes_eqb a1 a2 && bytes_eqb f1 f2 && bytes_eqb g1 g2
   | _, _ => false
   end.
 
